@@ -525,9 +525,13 @@ func main() {
 		"wall_s":     time.Since(start).Seconds(),
 		"violations": unlisted,
 	}
-	_ = os.MkdirAll(filepath.Join(verifRoot, "evidence"), 0o755)
+	evDir := filepath.Join(verifRoot, "evidence")
+	if d := os.Getenv("VERIF_EVIDENCE_DIR"); d != "" {
+		evDir = d // runs against scratch trees (seeded changes) must not overwrite the committed evidence
+	}
+	_ = os.MkdirAll(evDir, 0o755)
 	b, _ := json.MarshalIndent(ev, "", " ")
-	if err := os.WriteFile(filepath.Join(verifRoot, "evidence", id+".json"), b, 0o644); err != nil {
+	if err := os.WriteFile(filepath.Join(evDir, id+".json"), b, 0o644); err != nil {
 		die(2, "cannot write evidence: %v", err)
 	}
 	for _, l := range lines {
